@@ -245,6 +245,148 @@ def _verbose_with(vd, extra):
     return vd
 
 
+# ----------------------------------------------------------------------------- strengthened family (histories, whitespace, multi-char variables)
+VARS_MC = ["pq", "n_h", "kvLen", "p1q", "qK", "h_0", "mC2", "x_", "nH_kv", "aB", "m", "k"]  # shorthand variables with > 1 character, mixed case
+WS_KINDS = [" ", "   ", "\t", "\n", "\r", "\r\n", "\n      ", " \t\r\n "]  # inserted at one / at every token boundary
+TA_DEFAULTS = {"persistent": False, "bits_per_value": None, "backing_storage_size_scale": 1.0}  # documented field defaults of TensorAccess
+EIN_DEFAULTS = {"n_instances": 1, "is_copy_operation": False, "rank_sizes": {}, "iteration_space_shape": [], "renames": []}
+MIX_NAME = "Zz9"  # output / Einsum name of the second Einsum of two-Einsum workloads (not in TENSORS)
+
+
+def _random_entry_mc(rnd, used, implied):
+    """like _random_entry, over VARS_MC; the rank of a bare entry is `implied[v]`, read off the REAL verbose
+    list-projection form (TensorAccess(projection=[v])), not computed by a rule of this file"""
+    for _ in range(60):
+        r = rnd.random()
+        v = rnd.choice(VARS_MC)
+        if r < 0.55:
+            e = {"kind": "bare", "rank": implied[v], "toks": [v]}
+        elif r < 0.7:
+            e = _entry_explicit(implied[v], [v])
+        elif r < 0.8:
+            e = _entry_explicit(rnd.choice(RANKNAMES), [v])
+        else:
+            e = _entry_explicit(rnd.choice(RANKNAMES + [implied[v]]), _expr_toks(rnd.choice(EXPRS), rnd.sample(VARS_MC, 3)))
+        if e["rank"] not in used:
+            return e
+    raise AssertionError("rank pool exhausted")
+
+
+def _random_einsum_mc(rnd, max_in, max_ranks, implied):
+    names = rnd.sample(TENSORS, rnd.randint(1, max_in) + 1)
+    tensors = []
+    for nm in names:
+        used, ents = set(), []
+        for _ in range(rnd.randint(1, max_ranks)):
+            en = _random_entry_mc(rnd, used, implied)
+            used.add(en["rank"])
+            ents.append(en)
+        tensors.append({"name": nm, "entries": ents})
+    return {"out": tensors[0], "ins": tensors[1:]}
+
+
+def _second_einsum(e):
+    """an Einsum reading the same input tensors with the same projections, writing a new tensor MIX_NAME"""
+    return {"out": {"name": MIX_NAME, "entries": copy.deepcopy(e["out"]["entries"])}, "ins": copy.deepcopy(e["ins"])}
+
+
+def _random_ta_extras(rnd, e, avoid=None):
+    """non-empty list of tensor_accesses extras ({name, persistent / bits_per_value / backing_storage_size_scale})"""
+    names = [t["name"] for t in e["ins"]] + [e["out"]["name"]]
+    for _ in range(50):
+        out = []
+        for nm in rnd.sample(names, rnd.randint(1, len(names))):
+            d = {"name": nm}
+            if rnd.random() < 0.5:
+                d["persistent"] = True
+            if rnd.random() < 0.6:
+                d["bits_per_value"] = rnd.choice([4, 8, 16, 32])
+            if rnd.random() < 0.4:
+                d["backing_storage_size_scale"] = rnd.choice([0.5, 2.0, 4.0])
+            if len(d) > 1:
+                out.append(d)
+        if out and out != avoid:
+            return out
+    return [{"name": names[0], "bits_per_value": 64}]
+
+
+def _random_top_extras(rnd, e):
+    rank0 = e["out"]["entries"][0]["rank"]
+    pool = [{}, {}, {"n_instances": rnd.choice([2, 3, 5])}, {"is_copy_operation": True}, {"rank_sizes": {rank0: rnd.choice([3, 4, 7])}},
+            {"renames": {"input": e["ins"][0]["name"]}}, {"n_instances": 4, "rank_sizes": {rank0: 2}}]
+    return copy.deepcopy(rnd.choice(pool))
+
+
+def _full_required(e, extra):
+    """everything an Einsum parsed from (e, extra) must show: tensors/projections/flags of e, the extras of THIS parse, documented defaults elsewhere"""
+    ta_extra = {a["name"]: {k: v for k, v in a.items() if k != "name"} for a in extra.get("tensor_accesses", [])}
+    tens = []
+    for name, proj, out in _expected(e):
+        a = {**TA_DEFAULTS, **ta_extra.get(name, {})}
+        tens.append([name, proj, out, a["persistent"], a["bits_per_value"], a["backing_storage_size_scale"]])
+    top = {**copy.deepcopy(EIN_DEFAULTS), **{k: copy.deepcopy(v) for k, v in extra.items() if k != "tensor_accesses"}}
+    top["renames"] = [[k, v] for k, v in top["renames"].items()] if isinstance(top["renames"], dict) else top["renames"]
+    return {"name": e["out"]["name"], "tensors": tens, **top}
+
+
+def _full_view(c):
+    """the same view of a real Einsum object"""
+    return {"name": str(c.name),
+            "tensors": [[str(t.name), [[str(k), _nows(v)] for k, v in t.projection.items()], bool(t.output), t.persistent, t.bits_per_value,
+                         t.backing_storage_size_scale] for t in c.tensor_accesses],
+            "n_instances": c.n_instances, "is_copy_operation": c.is_copy_operation, "rank_sizes": {str(k): v for k, v in dict(c.rank_sizes).items()},
+            "iteration_space_shape": [str(x) for x in c.iteration_space_shape], "renames": [[str(r.name), str(r.source)] for r in c.renames]}
+
+
+def _full_view_dict(d, raw):
+    """the same view of a dict returned by _parse_einsum_string (raw=True: tensor entries must carry exactly name/projection/output)
+    or by _parse_einsum_entry (raw=False)"""
+    tens = []
+    for t in d["tensor_accesses"]:
+        row = [str(t["name"]), [[str(k), _nows(v)] for k, v in dict(t["projection"]).items()], bool(t["output"]),
+               t.get("persistent", False), t.get("bits_per_value", None), t.get("backing_storage_size_scale", 1.0)]
+        other = sorted(set(t) - {"name", "projection", "output"} - (set() if raw else set(TA_DEFAULTS)))
+        if other:
+            row.append({"unexpected_keys": other})
+        tens.append(row)
+    out = {"name": str(d.get("name")), "tensors": tens}
+    for k, dflt in EIN_DEFAULTS.items():
+        v = d.get(k, dflt)
+        if k == "renames":
+            v = [[str(r.name), str(r.source)] for r in v]
+        elif k == "rank_sizes":
+            v = {str(a): b for a, b in dict(v).items()}
+        elif k == "iteration_space_shape":
+            v = [str(x) for x in v]
+        out[k] = v
+    other = sorted(set(d) - {"name", "tensor_accesses"} - (set() if raw else set(EIN_DEFAULTS)))
+    if other:
+        out["unexpected_keys"] = other
+    return out
+
+
+def _block_scalar(texts, rnd, indent):
+    """the tokens laid out as the body of a YAML block scalar: several lines, the first at `indent`, the others at
+    indent + 0..4, tokens inside a line separated by nothing / blanks / a tab; sometimes an empty line"""
+    lines, cur = [], []
+    for t in texts:
+        cur.append(t)
+        if rnd.random() < 0.3:
+            lines.append(cur)
+            cur = []
+    if cur:
+        lines.append(cur)
+    out = []
+    for i, ln in enumerate(lines):
+        body = ln[0]
+        for t in ln[1:]:
+            body += rnd.choice(["", " ", "  ", "\t", " \t "]) + t
+        out.append(" " * (indent + (0 if i == 0 else rnd.randint(0, 4))) + body + rnd.choice(["", "", " ", "\t"]))
+        if rnd.random() < 0.1:
+            out.append("")
+    return out
+
+
 # ----------------------------------------------------------------------------- independent recogniser
 _NAME = r"[A-Za-z_]\w*"
 _TERM = r"(?:[a-z]\w*|[0-9]+)"
@@ -397,12 +539,34 @@ RULE = (
     "excluded from the well-formed family: duplicated rank name within one tensor ('M: n, m' parses as {M: m}); the same tensor "
     "name twice in one Einsum or output name == an input name (Workload(einsums=[str]) keeps one access per name, the verbose "
     "form keeps all); 0-rank tensors (verbose 'projection: []' is accepted, concise 'T[]' is rejected: checked as malformed "
-    "class empty_projection)."
+    "class empty_projection). "
+    "Strengthened part (own seeded generator): (a) CALL HISTORIES in one process: for each Einsum a sequence of 8-10 parses of the same concise "
+    "string (70 % the identical string, 30 % another whitespace rendering) - bare, with extras X1, bare, with other extras X2, then 4-6 random "
+    "repeats of {bare, X1, X2}, half of the histories rotated to start with extras - through the entry points Workload(einsums=[str]), "
+    "Workload(einsums=[{einsum: ...}]), Workload.from_yaml (string item / einsum: item), _parse_einsum_string and _parse_einsum_entry in random "
+    "order; X = tensor_accesses entries with persistent / bits_per_value / backing_storage_size_scale on a random subset of the tensors plus "
+    "sometimes n_instances / is_copy_operation / rank_sizes / renames; the caller's nested extras objects are reused, not copied. After EVERY step "
+    "the result must show the tensors/projections/flags of the Einsum, exactly the extras of that step and the documented field defaults everywhere "
+    "else (persistent False, bits_per_value None, backing_storage_size_scale 1.0, n_instances 1, ...; the dict of _parse_einsum_string must carry "
+    "only name/projection/output); after the last step every earlier result is viewed again and must be unchanged, and the caller's extras objects "
+    "must be unchanged; then three Workloads of two Einsums sharing all input tensor names, each entry with its own (or no) extras. (b) WHITESPACE: for "
+    "3 fixed + n sampled Einsums every one of ' ', '   ', TAB, LF, CR, CRLF, LF+indent, ' TAB CR LF ' inserted at each single token boundary "
+    "(incl. before the first and after the last token) and at all boundaries at once must give the compact string's result in "
+    "_parse_einsum_string and Workload(einsums=[str]) (full model_dump equality with the verbose form); the token stream laid out over several "
+    "indented lines as YAML block scalars (styles | > |- >- |+, LF and CRLF files, string item and einsum: item) must load to the same Einsums. "
+    "(c) MULTI-CHARACTER shorthand variables {pq, n_h, kvLen, p1q, qK, h_0, mC2, x_, nH_kv, aB}: the rank a bare variable stands for is read off "
+    "the REAL verbose list form TensorAccess(projection=[v]) (not computed here); Einsums over these variables go through the whole well-formed "
+    "check above (5 whitespace patterns, verbose dict/object equality, extras, YAML) and the single-edit mutants; for every such Einsum (and for "
+    "a sample of the single-letter ones) a second Einsum reading the same input tensors with the same projections is added and the Workloads "
+    "[concise, verbose], [verbose, concise], both in swapped Einsum order, and [concise, concise] must be accepted and equal Einsum by Einsum "
+    "(model_dump) the all-verbose Workload, with tensor_ranks / accesses_for_tensor of every shared tensor the same from both forms. "
+    "Not required (only counted as entry_dict_lost_einsum_key): Workload(einsums=[d]) removes the key 'einsum' from the caller's dict d, so the same "
+    "dict OBJECT cannot be parsed twice; histories therefore build a fresh outer dict per parse."
 )
 
 
 def bounded(p):
-    from accelforge.frontend.workload import Workload, Einsum, TensorAccess, _parse_einsum_string
+    from accelforge.frontend.workload import Workload, Einsum, TensorAccess, _parse_einsum_string, _parse_einsum_entry
 
     seed = int(p.get("seed", 0))
     known_ids = {e.get("class_id") for e in (p.get("known") or [])}
@@ -414,16 +578,24 @@ def bounded(p):
     yaml_every = 5 if thorough else 4
 
     st = {"evaluations": 0, "distinct": set(), "samples": [], "kept": {}, "dropped": {}, "not_mutants": 0,
-          "well_formed_einsums": 0, "malformed_strings": 0}
+          "well_formed_einsums": 0, "malformed_strings": 0, "ws_position_strings": 0, "history_steps": 0, "mixed_workloads": 0,
+          "multichar_einsums": 0, "entry_dict_lost_einsum_key": 0}
+    n_ws, n_hist, n_mc, n_mc_mut = (60, 500, 400, 40) if thorough else (8, 60, 60, 8)
     tmpdir = tempfile.mkdtemp(prefix="c23_")
 
     def counters():
         return {
             "evaluations": st["evaluations"], "distinct": len(st["distinct"]), "rule": RULE,
             "bound": f"core: 1024 one-input Einsums (exhaustive); random: {n_random} Einsums, <= {max_in} inputs, <= {max_ranks} entries per tensor, "
-                     f"7 rank variables, 5 whitespace patterns, 6 extra-attribute patterns; single-edit mutants of {n_mut_sources} strings",
+                     f"7 rank variables, 5 whitespace patterns, 6 extra-attribute patterns; single-edit mutants of {n_mut_sources} strings; "
+                     f"whitespace sweep: {3 + n_ws} Einsums x {len(WS_KINDS)} whitespace kinds x every token boundary (one at a time and all at once) + 5 YAML block-scalar styles; "
+                     f"call histories: {n_hist} Einsums x 8-10 parses through 6 entry points + 3 two-Einsum workloads each; "
+                     f"multi-character shorthand variables: {n_mc} Einsums over {len(VARS_MC)} variables (5 whitespace patterns, extras, mixed concise/verbose workloads in 5 arrangements), mutants of {n_mc_mut}",
             "exhaustive": False, "samples": st["samples"][:10],
             "well_formed_einsums": st["well_formed_einsums"], "malformed_strings": st["malformed_strings"],
+            "ws_position_strings": st["ws_position_strings"], "history_steps": st["history_steps"], "mixed_workloads": st["mixed_workloads"],
+            "multichar_einsums": st["multichar_einsums"], "implied_ranks_from_verbose_form": st.get("implied"),
+            "entry_dict_lost_einsum_key(informational)": st["entry_dict_lost_einsum_key"],
             "kept_classes": st["kept"], "dropped_classes": st["dropped"], "mutants_still_in_language_skipped": st["not_mutants"],
             "assumptions": ["exhaustive only for the 1024-Einsum core; the random part is a seeded sample",
                             "any exception type counts as 'rejected'"],
@@ -498,6 +670,139 @@ def bounded(p):
                 need(_view_obj(y) == want and y.n_instances == (1 if label == "string item" else 2), item,
                      {"tensors": _view_obj(y), "n_instances": y.n_instances}, want, f"YAML route, {label}")
 
+    # ------------------------------------------------------------------ (b) whitespace of every kind at every token boundary
+    def check_ws_positions(e):
+        want = _expected(e)
+        vd = _verbose_dict(e, spaced=False)
+        vref = _dump(real(vd, "verbose dict form", lambda: Workload(einsums=[copy.deepcopy(vd)]).einsums[0]))
+        texts = [t for t, _ in _tokens(e)]
+        cases = []
+        for kind in WS_KINDS:
+            for pos in range(len(texts) + 1):
+                cases.append((f"{kind!r} at token boundary {pos}", "".join(texts[:pos]) + kind + "".join(texts[pos:])))
+            cases.append((f"{kind!r} at every token boundary", kind + kind.join(texts) + kind))
+        for what, s in cases:
+            st["distinct"].add(s)
+            st["ws_position_strings"] += 1
+            r = real(s, "_parse_einsum_string", lambda: _parse_einsum_string(s))
+            need(r.get("name") == e["out"]["name"] and _view_parsed(r) == want, s, {"name": r.get("name"), "tensors": _view_parsed(r)},
+                 {"name": e["out"]["name"], "tensors": want}, f"_parse_einsum_string, whitespace {what}")
+            c = real(s, "Workload(einsums=[str])", lambda: Workload(einsums=[s]).einsums[0])
+            need(_dump(c) == vref, s, _dump(c), vref, f"Workload(einsums=[str]) vs verbose form, whitespace {what}")
+        # the same tokens as YAML block scalars (literal / folded, keep / strip, LF / CRLF file), string item and einsum: item
+        for style in ("|", ">", "|-", ">-", "|+"):
+            lines = ["workload:", "  einsums:", "  - " + style] + _block_scalar(texts, rnd, 4)
+            lines += ["  - einsum: " + style] + _block_scalar([t for t, _ in _tokens(_second_einsum(e))], rnd, 6) + ["    n_instances: 2"]
+            eol = "\r\n" if style in (">", "|-") else "\n"
+            path = os.path.join(tmpdir, "b.yaml")
+            with open(path, "wb") as f:
+                f.write((eol.join(lines) + eol).encode())
+            shown = {"yaml": eol.join(lines)}
+            st["ws_position_strings"] += 2
+            w = real(shown, "Workload.from_yaml block scalar", lambda: Workload.from_yaml(path, top_key="workload"))
+            got = [_full_view(x) for x in w.einsums]
+            req = [_full_required(e, {}), _full_required(_second_einsum(e), {"n_instances": 2})]
+            need(got == req, shown, got, req, f"YAML block scalar style {style}")
+
+    # ------------------------------------------------------------------ (a) call histories in one process
+    def parse_via(route, s, extra, share):
+        """one parse of string s (+ extras) through one entry point -> (kind, result)"""
+        ex = extra if share else copy.deepcopy(extra)  # share: the nested extras objects are the caller's, reused across steps
+        if route == "str":
+            return "obj", Workload(einsums=[s]).einsums[0]
+        if route == "dict":
+            entry = {"einsum": s, **ex}
+            c = Workload(einsums=[entry]).einsums[0]
+            if "einsum" not in entry:
+                st["entry_dict_lost_einsum_key"] += 1  # informational only (the caller's dict is consumed), see report
+            return "obj", c
+        if route == "yaml":
+            return "obj", yaml_load([{"einsum": s, **ex} if ex else s]).einsums[0]
+        if route == "yaml_dict":
+            return "obj", yaml_load([{"einsum": s, **ex}]).einsums[0]
+        if route == "parse_string":
+            return "raw", _parse_einsum_string(s)
+        if route == "parse_entry":
+            return "entry", _parse_einsum_entry({"einsum": s, **ex})
+        raise AssertionError(route)
+
+    def view_of(kind, res):
+        return _full_view(res) if kind == "obj" else _full_view_dict(res, raw=(kind == "raw"))
+
+    def check_history(e, n_extra_steps):
+        s0 = _render(e, rnd.choice(["none", "canon"]), rnd)
+        st["distinct"].add(s0)
+        x1 = {"tensor_accesses": _random_ta_extras(rnd, e), **_random_top_extras(rnd, e)}
+        x2 = {"tensor_accesses": _random_ta_extras(rnd, e, avoid=x1["tensor_accesses"]), **_random_top_extras(rnd, e)}
+        pristine = {id(x1): copy.deepcopy(x1), id(x2): copy.deepcopy(x2)}
+        bare_routes = ["str", "parse_string", "yaml", "dict", "parse_entry"]
+        extra_routes = ["dict", "yaml_dict", "parse_entry"]
+        steps = [(rnd.choice(bare_routes), {}), (rnd.choice(extra_routes), x1), (rnd.choice(bare_routes), {}), (rnd.choice(extra_routes), x2)]
+        for _ in range(n_extra_steps):
+            x = rnd.choice([{}, {}, x1, x2])
+            steps.append((rnd.choice(extra_routes if x else bare_routes), x))
+        if rnd.random() < 0.5:  # also histories that START with extras
+            steps = steps[1:] + steps[:1]
+        kept, log = [], []
+        for i, (route, x) in enumerate(steps):
+            s = s0 if rnd.random() < 0.7 else _render(e, rnd.choice(WS_PATTERNS), rnd)
+            if route == "parse_string":
+                x = {}
+            log.append({"step": i, "route": route, "string": s, "extras": copy.deepcopy(pristine[id(x)]) if x else {}})
+            case = {"history": list(log)}
+            st["history_steps"] += 1
+            kind, res = real(case, f"history step {i} via {route}", lambda: parse_via(route, s, x, share=True))
+            req = _full_required(e, pristine[id(x)] if x else {})
+            got = view_of(kind, res)
+            need(got == req, case, got, req, f"call history: step {i} ({route}) must show exactly its own extras (defaults elsewhere), independent of earlier parses")
+            kept.append((i, kind, res, req))
+        for i, kind, res, req in kept:  # results of earlier parses are not changed by later ones
+            got = view_of(kind, res)
+            need(got == req, {"history": log}, got, req, f"call history: the result of step {i} changed after later parses")
+        for x in (x1, x2):  # the caller's extras objects are not written to
+            need(x == pristine[id(x)], {"history": log}, x, pristine[id(x)], "call history: the caller's extras object was modified")
+        # two Einsums in ONE Workload sharing tensor names, each with its own extras
+        e2 = _second_einsum(e)
+        s2 = _render(e2, rnd.choice(["none", "canon"]), rnd)
+        y2 = {"tensor_accesses": _random_ta_extras(rnd, e2, avoid=x1["tensor_accesses"])}
+        for items, reqs in (
+            ([{"einsum": s0, **pristine[id(x1)]}, {"einsum": s2, **y2}], [_full_required(e, pristine[id(x1)]), _full_required(e2, y2)]),
+            ([{"einsum": s2, **y2}, s0], [_full_required(e2, y2), _full_required(e, {})]),
+            ([s2, {"einsum": s0, **pristine[id(x2)]}], [_full_required(e2, {}), _full_required(e, pristine[id(x2)])]),
+        ):
+            shown = copy.deepcopy(items)
+            st["history_steps"] += 1
+            w = real(shown, "two Einsums sharing tensors in one Workload", lambda: Workload(einsums=copy.deepcopy(items)))
+            got = [_full_view(c) for c in w.einsums]
+            need(got == reqs, shown, got, reqs, "two Einsums of one Workload sharing tensor names: each must carry exactly its own extras")
+
+    # ------------------------------------------------------------------ (c) concise and verbose forms of the same tensor in one Workload
+    def check_mixed(e):
+        e2 = _second_einsum(e)
+        s1, s2 = _render(e, rnd.choice(WS_PATTERNS), rnd), _render(e2, rnd.choice(WS_PATTERNS), rnd)
+        v1, v2 = _verbose_dict(e, spaced=False), _verbose_dict(e2, spaced=True)
+        st["distinct"].update((s1, s2))
+        ref = real([v1, v2], "all-verbose two-Einsum Workload", lambda: Workload(einsums=copy.deepcopy([v1, v2])))
+        ref_dump = [_dump(c) for c in ref.einsums]
+        want = [_expected(e), _expected(e2)]
+        need([_view_obj(c) for c in ref.einsums] == want, [v1, v2], [_view_obj(c) for c in ref.einsums], want, "all-verbose workload vs generated structure")
+        for label, items, order in (("concise+verbose", [s1, v2], (0, 1)), ("verbose+concise", [v1, s2], (0, 1)),
+                                    ("verbose(2nd)+concise(1st)", [v2, s1], (1, 0)), ("concise(2nd)+verbose(1st)", [s2, v1], (1, 0)),
+                                    ("concise+concise", [s1, s2], (0, 1))):
+            shown = copy.deepcopy(items)
+            st["mixed_workloads"] += 1
+            w = real(shown, f"mixed Workload {label}", lambda: Workload(einsums=copy.deepcopy(items)))
+            got = [_dump(c) for c in w.einsums]
+            req = [ref_dump[k] for k in order]
+            need(got == req, shown, got, req, f"mixed Workload {label}: Einsums must equal those of the all-verbose Workload")
+            for t in e["ins"]:
+                ranks = [en["rank"] for en in t["entries"]]
+                got_r = sorted(map(str, w.tensor_ranks(t["name"])))
+                accs = [[[str(k), _nows(v)] for k, v in a.projection.items()] for a in w.accesses_for_tensor(t["name"])]
+                need(got_r == sorted(ranks) and accs == [[[en["rank"], "".join(en["toks"])] for en in t["entries"]]] * 2, shown,
+                     {"tensor": t["name"], "ranks": got_r, "accesses": accs}, {"tensor": t["name"], "ranks": sorted(ranks), "accesses": "the same projection twice"},
+                     f"mixed Workload {label}: shared tensor seen consistently from both forms")
+
     def must_reject(cls, case, fns):
         for what, fn in fns:
             st["evaluations"] += 1
@@ -562,6 +867,37 @@ def bounded(p):
                 check_well_formed(e, WS_PATTERNS, with_extras=True, with_yaml=(i % yaml_every == 0))
                 sources.append(e)
             for e in sources[:n_mut_sources]:
+                check_malformed(e)
+            # --- strengthened part: own generator so that the draws above stay what they were
+            rnd.seed(seed * 7919 + 23)
+            implied = {}
+            for v in VARS_MC:  # the rank a bare shorthand variable stands for = what the REAL verbose list form gives
+                ta = real({"projection": [v]}, "verbose list projection", lambda: TensorAccess(name="T", projection=[v]))
+                need(len(ta.ranks) == 1 and dict(ta.projection) == {ta.ranks[0]: v}, [v], dict(ta.projection), "one rank projecting v", "verbose list projection")
+                implied[v] = str(ta.ranks[0])
+            st["implied"] = implied
+            mc = []
+            for i in range(n_mc):
+                e = _random_einsum_mc(rnd, max_in, max_ranks, implied)
+                st["multichar_einsums"] += 1
+                check_well_formed(e, WS_PATTERNS, with_extras=(i % 3 == 0), with_yaml=(i % 6 == 0))
+                check_mixed(e)
+                mc.append(e)
+            for e in sources[:n_hist // 2]:
+                check_mixed(e)
+            fixed = [
+                {"out": {"name": "C", "entries": [_entry_bare("m"), _entry_explicit("N", ["n"]), _entry_explicit("X", ["2", "*", "m", "+", "n"])]},
+                 "ins": [{"name": "A", "entries": [_entry_bare("m"), _entry_explicit("K", ["k"])]}, {"name": "B", "entries": [_entry_bare("k"), _entry_bare("n")]}]},
+                {"out": {"name": "O", "entries": [_entry_bare("m")]}, "ins": [{"name": "I", "entries": [_entry_bare("m")]}]},
+                {"out": {"name": "QK_softmax", "entries": [{"kind": "bare", "rank": implied["kvLen"], "toks": ["kvLen"]}, {"kind": "bare", "rank": implied["n_h"], "toks": ["n_h"]}]},
+                 "ins": [{"name": "_t", "entries": [_entry_explicit("H", ["kvLen", "*", "16", "+", "p1q"]), {"kind": "bare", "rank": implied["n_h"], "toks": ["n_h"]}]}]},
+            ]
+            for e in fixed + mc[:n_ws // 2] + sources[-(n_ws - n_ws // 2):]:
+                check_ws_positions(e)
+            hist = fixed + mc[:n_hist // 3] + sources[-(n_hist - n_hist // 3):]
+            for e in hist[:n_hist]:
+                check_history(e, rnd.randint(4, 6))
+            for e in mc[:n_mc_mut]:
                 check_malformed(e)
         except _Fail as f:
             return {"failed": True, **f.info, **counters()}
